@@ -54,9 +54,12 @@ type Case struct {
 	Second bool     `json:"second,omitempty"`
 	Type   []FieldT `json:"type"`
 	Val    []FieldV `json:"val"`
+	// Val2: a second value of the type goes through the SAME message afterwards (Marshal, Unmarshal):
+	// an application that reuses its message object.
+	Val2 []FieldV `json:"val2,omitempty"`
 }
 
-const rule = "struct types generated with reflect.StructOf from a spec: 1..6 fields per level, each a dictionary name of the message's application (dict.Default, the per-file embedded dictionaries, generated dictionaries with all 18 type names) x shape {datatype type | another datatype type that converts losslessly (string kinds among themselves, wider integer / float) | lossless native Go type} x {T, *T, []T, []*T}, diam.AVP / *diam.AVP / []*diam.AVP / []diam.AVP, struct / *struct / []struct / []*struct for grouped AVPs to depth 3, embedded untagged struct, embedded tagged struct x tag form {avp:\"N\", avp:\"N,omitempty\", each alone / after / before a json key}; no code twice per struct level; slices optionally with spare capacity; optionally a second value sharing the slices of the first is marshalled into another message afterwards (the first message must not change); the message marshalled into is fresh from NewMessage or (3 in 8) already used: carries AVPs added with AddAVP, or the same / a zero value of the struct was marshalled into it before; values incl. zero numbers, empty strings, nil pointers, nil and empty slices; non-trivial = at least 2 fields in total and at least one pointer / slice / nested / embedded shape; distinct by hash of the JSON form of the case"
+const rule = "struct types generated with reflect.StructOf from a spec: 1..6 fields per level, each a dictionary name of the message's application (dict.Default, the per-file embedded dictionaries, generated dictionaries with all 18 type names) x shape {datatype type | another datatype type that converts losslessly (string kinds among themselves, wider integer / float) | lossless native Go type} x {T, *T, []T, []*T}, diam.AVP / *diam.AVP / []*diam.AVP / []diam.AVP, struct / *struct / []struct / []*struct for grouped AVPs to depth 3, embedded untagged struct, embedded tagged struct x tag form {avp:\"N\", avp:\"N,omitempty\", each alone / after / before a json key}; no code twice per struct level; slices optionally with spare capacity; optionally a second value sharing the slices of the first is marshalled into another message afterwards (the first message must not change); optionally (1 in 3) a second, independently generated value of the type goes through the SAME message afterwards (Marshal, then Unmarshal must reproduce it); the message marshalled into is fresh from NewMessage or (3 in 8) already used: carries AVPs added with AddAVP, or the same / a zero value of the struct was marshalled into it before; values incl. zero numbers, empty strings, nil pointers, nil and empty slices; non-trivial = at least 2 fields in total and at least one pointer / slice / nested / embedded shape; distinct by hash of the JSON form of the case"
 
 var prop = ev.Register(&ev.Prop[Case]{
 	ID: "C18", Name: "struct", Rule: rule,
@@ -94,6 +97,7 @@ const (
 	stWireRead      = "wire-read-error"
 	stWire          = "roundtrip-wire-differs"
 	stLaterMarshal  = "message-changed-by-later-marshal"
+	stSecondRound   = "second-round-through-the-same-message-differs"
 	sigAVPField     = "avp-field-marshal"
 	sigOmitInverted = "omitempty-inverted"
 	sigIPv6QoS      = "ipv6-qos-marshal"
@@ -252,6 +256,27 @@ func core(c Case) *verdict {
 		}
 		if again, err := m.Serialize(); err != nil || !bytes.Equal(again, wire) {
 			return &verdict{stage: stLaterMarshal, detail: fmt.Sprintf("after another value of the type was marshalled into another message, the first message serialises differently (err %v); %s", err, show())}
+		}
+	}
+	if c.Val2 != nil && validate(c.Type, c.Val2, 0) == nil {
+		want2, err := o.expect(c.Type, c.Val2)
+		if err != nil {
+			return &verdict{stage: stHarness, detail: err.Error()}
+		}
+		v2 := reflect.New(typ)
+		fillStruct(v2.Elem(), c.Type, c.Val2)
+		err, pan = protect(func() error { return m.Marshal(v2.Interface()) })
+		// (whether Marshal replaces or extends what the message holds is not decided by the property:
+		// the round is judged only when the message now holds exactly the AVPs of the second value)
+		if err == nil && pan == "" && compareAVPs(want2, m.AVP, "") == "" {
+			again := reflect.New(typ)
+			err, pan = protect(func() error { return m.Unmarshal(again.Interface()) })
+			if pan != "" || err != nil {
+				return &verdict{stage: stSecondRound, detail: fmt.Sprintf("a second value went through the same message: Unmarshal failed: %v %s; %s", err, pan, show())}
+			}
+			if d := cmpStruct(again.Elem(), c.Type, c.Val2, ""); d != "" {
+				return &verdict{stage: stSecondRound, detail: fmt.Sprintf("a second value was marshalled into the same message (which holds exactly its AVPs); Unmarshal does not reproduce it: %s; %s", d, show())}
+			}
 		}
 	}
 	return nil
@@ -429,6 +454,7 @@ func reductionPaths(fields []FieldT) [][]int {
 func reduceTo(c Case, path []int) Case {
 	rc := c
 	rc.Type, rc.Val = reduceFields(c.Type, c.Val, path)
+	rc.Val2 = nil
 	return rc
 }
 
@@ -613,6 +639,9 @@ func classify(c Case) (bool, []string) {
 	}
 	if c.SpareCap {
 		cl = append(cl, "slices-with-spare-capacity")
+	}
+	if c.Val2 != nil {
+		cl = append(cl, "second-value-through-the-same-message")
 	}
 	if c.Second {
 		cl = append(cl, "second-value-sharing-slices")
